@@ -265,6 +265,14 @@ func genC10(t *core.Tape, tier string) *Scenario {
 		p.CProg = append([]COp{{Op: "sleep", Arg: us}}, p.CProg...)
 		sc.Notes["idle_before_first_send"]++
 	}
+	if p.Raw == nil && p.Kind == KUnary && p.Deadline > 4*time.Microsecond && p.Deadline < time.Minute && t.Bool(1, 3, "slow.marshal") {
+		// a codec that takes its time over the request message: a unary Connect
+		// request cannot start before its body is ready (its headers say how it
+		// is compressed), so the timeout it carries must fit what remains then
+		us := int(p.Deadline / time.Duration(2+t.Choose(6, "marshal.div")) / time.Microsecond)
+		sc.Clients[0].SlowMarshal = time.Duration(us) * time.Microsecond
+		sc.Notes["slow_request_marshal"]++
+	}
 	genYield(t, p)
 	sc.Calls = []*CallPlan{p}
 	if p.Raw == nil && p.Kind == KUnary && p.Deadline > 0 && t.Bool(1, 2, "resend.request") {
@@ -376,6 +384,18 @@ func checkC10(w *World, st core.Status, r *RunResult) []Violation {
 				}
 				if dmax != d {
 					break
+				}
+			}
+			if proto == PConnect && p.Kind == KUnary {
+				// ... and a unary Connect request starts only once its body has
+				// been marshalled: with a slow codec that is the later bound
+				for _, me := range w.MarshalEnds {
+					if !me.Before(o.StartTime) && !me.After(rs) {
+						if m := p.Deadline - me.Sub(o.StartTime); m < dmax {
+							dmax = m
+							r.Probes["timeout_judged_after_slow_marshal"]++
+						}
+					}
 				}
 			}
 			if d <= 0 {
